@@ -327,7 +327,29 @@ impl<S: Write + Seek> W<S> {
                     |_| 0,
                 )
             }
-            Call::Write(d) => self.run(|z| z.write_all(d).map_err(|e| e.to_string()), |_| 0),
+            Call::Write(d) => match WRITE_MODE.with(|m| m.get()) {
+                // the same bytes handed over with Write::write_vectored (two slices per call, the caller advancing by the
+                // returned count, as std's write_all_vectored does)
+                1 => self.run(
+                    |z| {
+                        let mut rest: &[u8] = d;
+                        if rest.is_empty() {
+                            return z.write_vectored(&[std::io::IoSlice::new(&[]), std::io::IoSlice::new(&[])]).map(|_| ()).map_err(|e| e.to_string());
+                        }
+                        while !rest.is_empty() {
+                            let mid = rest.len() / 2;
+                            let n = z.write_vectored(&[std::io::IoSlice::new(&rest[..mid]), std::io::IoSlice::new(&rest[mid..])]).map_err(|e| e.to_string())?;
+                            if n == 0 {
+                                return Err("failed to write whole buffer".into());
+                            }
+                            rest = &rest[n.min(rest.len())..];
+                        }
+                        Ok(())
+                    },
+                    |_| 0,
+                ),
+                _ => self.run(|z| z.write_all(d).map_err(|e| e.to_string()), |_| 0),
+            },
             Call::Flush => self.run(|z| z.flush().map_err(|e| e.to_string()), |_| 0),
             Call::StartFile { name, opts } => self.run(|z| z.start_file(name.clone(), opts.to_zip()).map_err(|e| e.to_string()), |_| 0),
             Call::StartAligned { name, opts, align } => {
@@ -405,6 +427,62 @@ pub fn exec(calls: &[Call], sources: &[Vec<u8>]) -> (Vec<Res>, Vec<u8>) {
     let sink = SharedBuf::default();
     let mut w = W::new(sink.clone());
     let mut out = Vec::with_capacity(calls.len());
+    for c in calls {
+        out.push(w.call(c, sources));
+    }
+    drop(w);
+    (out, sink.snapshot())
+}
+
+thread_local! {
+    /// how `Call::Write` hands its bytes to the writer: 0 = write_all, 1 = write_vectored (two slices per call)
+    pub static WRITE_MODE: std::cell::Cell<u8> = const { std::cell::Cell::new(0) };
+}
+
+/// Run `f` with every `Call::Write` going through `Write::write_vectored`.
+pub fn with_vectored_writes<T>(f: impl FnOnce() -> T) -> T {
+    WRITE_MODE.with(|m| m.set(1));
+    let r = f();
+    WRITE_MODE.with(|m| m.set(0));
+    r
+}
+
+/// Like `exec`, but the sink already holds `initial` (the writer starts at position 0 and overwrites): a pre-sized buffer
+/// or a file opened without truncation. Returns the whole sink.
+pub fn exec_into(calls: &[Call], sources: &[Vec<u8>], initial: Vec<u8>) -> (Vec<Res>, Vec<u8>) {
+    let sink = SharedBuf::new(initial);
+    let mut w = W::new(sink.clone());
+    let mut out = Vec::with_capacity(calls.len());
+    for c in calls {
+        out.push(w.call(c, sources));
+    }
+    drop(w);
+    (out, sink.snapshot())
+}
+
+/// `exec_append` through a stream that transfers at most `chunk` bytes per read / write call.
+pub fn exec_append_chunked(base: &[u8], calls: &[Call], sources: &[Vec<u8>], chunk: usize) -> (Vec<Res>, Vec<u8>) {
+    use crate::sio::inst::{plan, Inst};
+    let sink = SharedBuf::new(base.to_vec());
+    let p = plan();
+    p.borrow_mut().record_kinds = false;
+    p.borrow_mut().chunk = Some(chunk);
+    let mut out = Vec::with_capacity(calls.len() + 1);
+    let opened = guard(|| ZipWriter::new_append(Inst::over(sink.clone(), p)));
+    let mut w = match opened {
+        Ok(Ok(zw)) => {
+            out.push(Res::Ok(0));
+            W::from_writer(zw)
+        }
+        Ok(Err(e)) => {
+            out.push(Res::Err(e.to_string()));
+            return (out, sink.snapshot());
+        }
+        Err(p) => {
+            out.push(Res::Panic(p));
+            return (out, sink.snapshot());
+        }
+    };
     for c in calls {
         out.push(w.call(c, sources));
     }
